@@ -2,4 +2,221 @@ import TensorModel.Run
 /-! Helper lemmas for C02 (slicing). -/
 namespace TM
 
+/-- closed form of `sliceDetails` on a non-nil slice -/
+theorem sliceDetails_some (s : Sl) (d : Int) :
+    sliceDetails (some s) d =
+      if s.start > s.stop ∨ s.start < 0 ∨ s.start ≥ d ∨ (s.step = 0 ∧ s.stop - s.start > 1) then
+        (if s.start > s.stop then throwErr "invalidSliceIndex start>end"
+         else if s.start < 0 then throwErr "invalidSliceIndex start<0"
+         else if s.step = 0 ∧ s.stop - s.start > 1 then throwErr "zero step"
+         else throwErr "start>=size")
+      else .ok (s.start, min s.stop d, s.step) := by
+  simp only [sliceDetails, Bool.and_eq_true, beq_iff_eq, decide_eq_true_eq]
+  by_cases h1 : s.start > s.stop
+  · simp [h1]
+  by_cases h2 : s.start < 0
+  · simp [h1, h2]
+  by_cases h3 : s.step = 0 ∧ s.stop - s.start > 1
+  · simp [h1, h2, h3]
+  by_cases h4 : s.start ≥ d
+  · simp [h1, h2, h3, h4]
+  have hc : ¬ (s.start > s.stop ∨ s.start < 0 ∨ s.start ≥ d ∨ (s.step = 0 ∧ s.stop - s.start > 1)) := by
+    intro h; rcases h with h | h | h | h <;> contradiction
+  rw [if_neg h1, if_neg h2, if_neg h3, if_neg h4, if_neg hc]
+  have hm : (if s.stop > d then d else s.stop) = min s.stop d := by
+    split <;> omega
+  rw [hm]
+
+def axisN (i : Nat) (start stop step : Int) : Int :=
+  if step > 0 then
+    let q := goDiv (stop - start) step
+    let q := if goMod (stop - start) step > 0 && i > 0 then q + 1 else q
+    if q ≤ 0 then 1 else q
+  else stop - start
+
+theorem sliceAxis_ok (isVec : Bool) (od i : Nat) (size stride : Int) (sl : Option Sl) (r : AxisRes)
+    (start stop step : Int)
+    (hd : sliceDetails sl size = .ok (start, stop, step))
+    (h : sliceAxis isVec od i size stride sl = .ok r) :
+    r.dStart = start * stride ∧ r.stride = (if step > 0 then stride * step else stride) ∧
+    r.n = axisN i start stop step := by
+  simp only [sliceAxis, hd, bind, Except.bind, pure, Except.pure] at h
+  injection h with h
+  subst h
+  unfold axisN
+  by_cases hs : step > 0
+  · simp [hs]
+  · simp [hs]
+
+theorem sliceAxis_details (isVec : Bool) (od i : Nat) (size stride : Int) (sl : Option Sl) (r : AxisRes)
+    (h : sliceAxis isVec od i size stride sl = .ok r) :
+    ∃ start stop step, sliceDetails sl size = .ok (start, stop, step) := by
+  cases hd : sliceDetails sl size with
+  | error e => simp [sliceAxis, hd, bind, Except.bind] at h
+  | ok v => exact ⟨v.1, v.2.1, v.2.2, rfl⟩
+
+theorem sliceAxis_addr' (isVec : Bool) (od i : Nat) (size stride : Int) (sl : Option Sl) (r : AxisRes)
+    (start stop step : Int)
+    (hd : sliceDetails sl size = .ok (start, stop, step))
+    (h : sliceAxis isVec od i size stride sl = .ok r) (c : Int) :
+    r.dStart + c * r.stride = (start + c * (if step > 0 then step else 1)) * stride := by
+  obtain ⟨h1, h2, -⟩ := sliceAxis_ok isVec od i size stride sl r start stop step hd h
+  rw [h1, h2]
+  split
+  · rw [Int.add_mul, Int.mul_assoc, Int.mul_comm step stride]
+  · rw [Int.add_mul, Int.mul_one]
+
+theorem ceil_div_aux (D step : Int) (hs : 0 < step) :
+    (D + step - 1) / step = if D % step > 0 then D / step + 1 else D / step := by
+  have hdm := Int.mul_ediv_add_emod D step
+  have h0 := Int.emod_nonneg D (Int.ne_of_gt hs)
+  have h1 := Int.emod_lt_of_pos D hs
+  split
+  · have : D + step - 1 = (D % step - 1) + step * (D / step + 1) := by
+      rw [Int.mul_add]; omega
+    rw [this, Int.add_mul_ediv_left _ _ (Int.ne_of_gt hs), Int.ediv_eq_zero_of_lt (by omega) (by omega)]
+    omega
+  · have : D + step - 1 = (step - 1) + step * (D / step) := by omega
+    rw [this, Int.add_mul_ediv_left _ _ (Int.ne_of_gt hs), Int.ediv_eq_zero_of_lt (by omega) (by omega)]
+    omega
+
+theorem axisN_len (i : Nat) (start stop step : Int) (hstep : step > 0) (hlt : start < stop)
+    (hx : i > 0 ∨ (stop - start) % step = 0) :
+    axisN i start stop step = (stop - start + step - 1) / step := by
+  have hD : 0 < stop - start := by omega
+  unfold axisN
+  generalize stop - start = D at *
+  have hq : goDiv D step = D / step := by
+    unfold goDiv; exact Int.tdiv_eq_ediv_of_nonneg (by omega)
+  have hm : goMod D step = D % step := by
+    unfold goMod; exact Int.tmod_eq_emod_of_nonneg (by omega)
+  have hdm := Int.mul_ediv_add_emod D step
+  have h0 := Int.emod_nonneg D (Int.ne_of_gt hstep)
+  have hqpos : D % step = 0 → 0 < D / step := by
+    intro hz
+    rw [hz] at hdm
+    have : 0 < step * (D / step) := by omega
+    exact Int.pos_of_mul_pos_right this (by omega)
+  have hqnn : 0 ≤ D / step := Int.ediv_nonneg (by omega) (by omega)
+  rw [ceil_div_aux D step hstep]
+  simp only [hstep, if_true, hq, hm, Bool.and_eq_true, decide_eq_true_eq]
+  by_cases hr : D % step > 0
+  · have hi : i > 0 := by omega
+    simp only [hr, hi, and_self, if_true]
+    rw [if_neg (by omega)]
+  · simp only [hr, false_and, if_false]
+    rw [if_neg (by have := hqpos (by omega); omega)]
+
+/-- effective (start, step) of one axis -/
+def selAxis (sl : Option Sl) (d : Int) : Int × Int :=
+  match sliceDetails sl d with
+  | .ok (st, _, sp) => (st, if sp > 0 then sp else 1)
+  | .error _ => (0, 1)
+
+theorem apSLoop_addr' (isVec : Bool) (od : Nat) (sel : List (Option Sl) → Shape → List (Int × Int))
+    (hnil : ∀ sls, sel sls [] = [])
+    (hcons : ∀ sls d ds, sel sls (d :: ds) = selAxis sls.head?.join d :: sel sls.tail ds)
+    (shape : Shape) (strides : List Int) (sls : List (Option Sl))
+    (rs : List AxisRes) (i : Nat) (h : apSLoop isVec od i shape strides sls = .ok rs)
+    (c : List Int) (hc : c.length = shape.length) :
+    rs.length = shape.length ∧
+    sumI (rs.map (·.dStart)) + dot c (rs.map (·.stride)) =
+      dot (List.zipWith (fun (p : Int × Int) ci => p.1 + ci * p.2) (sel sls shape) c) strides := by
+  induction shape generalizing strides sls i rs c with
+  | nil =>
+    simp only [apSLoop] at h
+    injection h with h
+    subst h
+    cases c with
+    | nil => simp [hnil, sumI, dot]
+    | cons _ _ => simp at hc
+  | cons d ds ih =>
+    cases strides with
+    | nil => simp [apSLoop, throwPanic] at h
+    | cons stride strides =>
+      simp only [apSLoop, bind, Except.bind, pure, Except.pure] at h
+      cases hr : sliceAxis isVec od i d stride sls.head?.join with
+      | error e => simp [hr] at h
+      | ok r =>
+        cases hrs : apSLoop isVec od (i + 1) ds strides sls.tail with
+        | error e => simp [hr, hrs] at h
+        | ok rs' =>
+          simp only [hr, hrs] at h
+          injection h with h
+          subst h
+          cases c with
+          | nil => simp at hc
+          | cons c0 cs =>
+            have hcs : cs.length = ds.length := by simpa using hc
+            obtain ⟨hl, ha⟩ := ih strides sls.tail rs' (i + 1) hrs cs hcs
+            obtain ⟨st, e, sp, hd⟩ := sliceAxis_details isVec od i d stride _ r hr
+            have h0 := sliceAxis_addr' isVec od i d stride _ r st e sp hd hr c0
+            refine ⟨by simp [hl], ?_⟩
+            rw [hcons]
+            simp only [List.map_cons, sumI, dot, List.zipWith_cons_cons, selAxis, hd]
+            rw [← ha, ← h0]
+            omega
+
+theorem drop_axis_addr' (strides : List Int) (keep : List Bool) (c : List Int)
+    (hl : c.length = strides.length) (hk : keep.length = c.length)
+    (hz : ∀ k : Nat, keep[k]? = some false → c[k]? = some 0) :
+    dot c strides =
+      dot ((c.zip keep).filterMap (fun (x, b) => if b then some x else none))
+          ((strides.zip keep).filterMap (fun (x, b) => if b then some x else none)) := by
+  induction c generalizing strides keep with
+  | nil => simp [dot]
+  | cons c0 cs ih =>
+    cases strides with
+    | nil => simp at hl
+    | cons s ss =>
+      cases keep with
+      | nil => simp at hk
+      | cons b bs =>
+        have hl' : cs.length = ss.length := by simpa using hl
+        have hk' : bs.length = cs.length := by simpa using hk
+        have hz' : ∀ k : Nat, bs[k]? = some false → cs[k]? = some 0 := by
+          intro k hk; simpa using hz (k + 1) (by simpa using hk)
+        have := ih ss bs hl' hk' hz'
+        cases b with
+        | true => simp [dot, this]
+        | false =>
+          have h0 : c0 = 0 := by simpa using hz 0 (by simp)
+          simp [dot, this, h0]
+
+theorem slice_shares' (t v : Dense) (sls : List (Option Sl)) (h : t.slice sls = .ok v) :
+    v.win.buf = t.win.buf ∧ t.win.off ≤ v.win.off ∧ v.win.off + v.win.len ≤ t.win.off + t.win.cap ∧ v.view = true := by
+  unfold Dense.slice at h
+  simp only [bind, Except.bind, pure, Except.pure] at h
+  cases hS : t.ap.S t.win.len sls with
+  | error e => simp [hS] at h
+  | ok res =>
+    obtain ⟨nap, ndStart, ndEnd⟩ := res
+    simp only [hS] at h
+    split at h
+    · simp [throwPanic] at h
+    · rename_i hb
+      simp only [Bool.or_eq_true, decide_eq_true_eq, not_or, Int.not_lt] at hb
+      split at h
+      · simp at h
+      · injection h with h
+        subst h
+        simp only
+        refine ⟨trivial, by omega, ?_, trivial⟩
+        omega
+
+/-- S rejects a non-nil per-axis request exactly on the four stated conditions -/
+theorem axisSel_some_reject_iff (s : Sl) (d : Int) :
+    axisSel (some s) d = .reject ↔
+      (s.start > s.stop ∨ s.start < 0 ∨ s.start ≥ d ∨ (s.step = 0 ∧ s.stop - s.start > 1)) := by
+  simp only [axisSel, Bool.or_eq_true, Bool.and_eq_true, beq_iff_eq, decide_eq_true_eq, or_assoc]
+  generalize (if s.stop > d then d else s.stop) = e
+  by_cases hc : s.start > s.stop ∨ s.start < 0 ∨ s.start ≥ d ∨ (s.step = 0 ∧ s.stop - s.start > 1)
+  · simp [hc]
+  · rw [if_neg hc]
+    simp only [hc, iff_false]
+    intro heq
+    split at heq
+    · cases heq
+    · split at heq <;> cases heq
+
 end TM
